@@ -27,32 +27,32 @@ def chk(pid, technique, text, note, ref):
     CHECKS[pid] = (technique, text, note, ref)
 
 
-chk("C24", "MIR dominance: effect-table calls dominated by enforce_sandbox false edge (interprocedural), config store dominance, who-may-write, no re-entry",
+chk("C24", "MIR dominance: effect-table calls dominated by enforce_sandbox false edge (interprocedural), config store dominance, who-may-write, no re-entry; REFUSE-FIRST (every path through a guarded built-in arm passes the sandbox test); allow-listed file read with re-checked refusal shape in check_snippet",
     "Every call into the std effect table reachable from eval::eval is shown to sit behind the false edge of an enforce_sandbox test on every CFG path and call chain; both sandbox entry points set the flag before any evaluation; a proof over code shape for all programs, not a sample of them.",
     "Trusted: rustc's MIR and callee resolution; the effect table (std::fs/process/net/stdin/Path probes); dependency internals are not walked. One accepted probe (source_file canonicalize) is allow-listed with its reason; one known finding (check_snippet import reads).",
     "DESIGN.md section 4 C24")
 
-chk("C25", "MIR CFG: limit comparisons edge-dominate the step (edge-removal reachability), tick increment dominance, frame-push placement, config store dominance, blocking-call guards; thorough: loop and recursion inventory",
+chk("C25", "MIR CFG: limit comparisons edge-dominate the step (edge-removal reachability), tick increment dominance, frame-push placement, config store dominance, blocking-call guards; thorough: loop and recursion inventory; no-panic inventory over the sandbox entry points; NATIVE-LOOPS (non-iterator and integer-range loops against a reviewed table) and RECURSION inventories; blocking table includes file reads",
     "Structural necessary conditions of the step budget proved for every path through the interpreter loop: no step without both limit checks, no frame push without a checked step, limits configured before evaluation, blocking calls guarded. Decides those clauses for all programs; does not bound the time of one native step.",
     "Trusted: rustc MIR; the blocking-API table. Deep value nesting inside one step is reported by the thorough tier as a known finding.",
     "DESIGN.md section 4 C25")
 
-chk("C08", "MIR CFG must-pass-through: every non-step exit of the interpreter loop restores the popped expression; no-effect-before-check; flag consumed once",
+chk("C08", "MIR CFG must-pass-through: every non-step exit of the interpreter loop restores the popped expression; no-effect-before-check; flag consumed once; RE-ENTRY (Interrupted arms of the session front ends hand no &mut Env to anything)",
     "For every path of eval::eval from the pop of (state, expr) to a return that skips the step, restore_stack_frame(pair, []) is on the path, nothing but the tick counter is written before the checks, and the interrupt flag is cleared only on the Interrupted edge; so the machine state at an interrupt equals the state before the step, for every step of every program.",
     "Trusted: rustc MIR. Decides the state-restoration clause; equality of printed output additionally assumes steps are deterministic.",
     "DESIGN.md section 4 C08")
 
-chk("C26", "MIR CFG: exit(1) edge-dominated by failures>0 and reached unconditionally; sibling agreement of the two failure-count closures; per-iteration must-pass pop_to_toplevel and min=max=1 verdict rows",
+chk("C26", "MIR CFG: exit(1) edge-dominated by failures>0 and reached unconditionally; sibling agreement of the two failure-count closures; per-iteration must-pass pop_to_toplevel and min=max=1 verdict rows; SELECTION-FILTER (test selection depends only on is-a-test and the -n filter)",
     "The exit-status clause and the per-test reset clause hold on every CFG path of run_tests_in_files and eval_tests; counts printed and counts deciding the exit status are computed by the same predicate over the same summary.",
     "Trusted: rustc MIR. Independence with respect to namespace-level state (definitions a test mutates) is not decided.",
     "DESIGN.md section 4 C26")
 
-chk("C34", "MIR CFG: value hand-out edge-dominated by exported_syms.contains (run time and check time), filtered copy for unqualified imports, visibility bookkeeping per arm, cycle guard dominance, who-may-write",
+chk("C34", "MIR CFG: value hand-out edge-dominated by exported_syms.contains (run time and check time), filtered copy for unqualified imports, visibility bookkeeping per arm, cycle guard dominance, who-may-write; CYCLE-KEY-NORMAL (the cycle key derives from normalize()); IMPORT-FILTER in loop and iterator form",
     "Both places that hand a member of an imported namespace to a program are proved to pass the visibility test on every path from the lookup hit; unqualified imports copy only tested members; exported_syms is maintained in one function with Public=>insert/CurrentFile=>remove; the recursive import load is behind the paths_seen test.",
     "Trusted: rustc MIR. Re-exports through chains of namespaces and type visibility are not decided.",
     "DESIGN.md section 4 C34")
 
-chk("C30", "MIR dominance chain eval<drop<join<drain<done; interval path-count dataflow done==1 per handler/op arm with callee summaries; last-message and in-order-send shapes",
+chk("C30", "MIR dominance chain eval<drop<join<drain<done; interval path-count dataflow done==1 per handler/op arm with callee summaries; last-message and in-order-send shapes; ATOMIC-TAKE (one lock per flush, text taken out under it); FRESH-ID (session ids from a growing counter); ID-ECHO (raw id cloned into every response); no-panic inventory over the nREPL threads",
     "Ordering clauses proved on every CFG path: the flusher is joined and both buffers drained before any `done` is built, each handler and each op arm yields exactly one `done` (min=max=1 over all paths), and it is the last element sent. Interleavings beyond join-before-final-drain are not decided.",
     "Trusted: rustc MIR; mpsc FIFO; single writer thread. Thread schedules are not explored (a static analysis cannot); worker panic-freedom is a separate obligation.",
     "DESIGN.md section 4 C30")
@@ -62,12 +62,12 @@ chk("C31", "MIR: reset-on-dequeue must-pass, interrupt addressing provenance (lo
     "Trusted: rustc MIR. Schedules are out of reach of static analysis; these are necessary, not sufficient, conditions.",
     "DESIGN.md section 4 C31")
 
-chk("C13", "syntax-table coverage: diagonal arms of `impl PartialEq for Value_` vs the enum's variants; same-field conjunction shape per arm; != is derived; operator dispatch agreement",
+chk("C13", "syntax-table coverage: diagonal arms of `impl PartialEq for Value_` vs the enum's variants; same-field conjunction shape per arm; != is derived; operator dispatch agreement; identity field (runtime_type or type_name) compared for enum and struct values",
     "Coverage clauses the compiler cannot enforce because of the `_ => false` catch-all: every variant has its diagonal arm, each literal-syntax arm compares every value-carrying field of the two sides pairwise, and != is the negation on the same operands. A relation of that shape is an equivalence by induction on values; values are never computed.",
     "Trusted: syn parse of values.rs/eval.rs; std/rpds element-wise equality. NaN reflexivity is excluded by the property (finite floats).",
     "DESIGN.md section 4 C13")
 
-chk("C10", "field-coverage: StackFrame fields (from the type) classified by a reviewed table; each state field reset by pop_to_toplevel on frame 0 on every path (MIR); Abort arm shapes",
+chk("C10", "field-coverage: StackFrame fields (from the type) classified by a reviewed table; each state field reset by pop_to_toplevel on frame 0 on every path (MIR); Abort arm shapes; ABORT-CALLS unconditional (every path through the Command::Abort arm passes pop_to_toplevel)",
     "Reset-coverage clause: every per-evaluation field of the surviving frame is reset by :abort's only mechanism on every path, frames above are dropped, the Abort arms never evaluate afterwards. A new collection field without classification fails closed.",
     "Trusted: rustc MIR/ADT layout facts; the field classification table (reviewed, one reason per field). Whether top-level locals of the failed input should survive is not decided.",
     "DESIGN.md section 4 C10")
@@ -77,7 +77,7 @@ chk("C14", "schema conformance: symbolic evaluation of is_subtype's match arms i
     "Trusted: syn parse; the boolean-block evaluator's idiom set (fails closed outside it); the paper argument that the schema implies a preorder. Error types and ill-formed arities excluded as in the property.",
     "DESIGN.md section 4 C14")
 
-chk("C15", "schema conformance: rows of unify matched against upper-bound rows of the C14 relation; fold shape of unify_all; MIR call-presence for the five combining constructs",
+chk("C15", "schema conformance: rows of unify matched against upper-bound rows of the C14 relation; fold shape of unify_all; MIR call-presence for the five combining constructs; JOIN-INPUT-COVER (every match arm's type reaches unify_all)",
     "Every Some(X) that unify can return is justified as an upper bound by a row of the subtype schema under the condition it is returned, unify_all is the left fold from bottom, and list/dict/if/try/match inference reach these functions. By induction the combined type is a supertype of every input, and equal inputs return themselves.",
     "Trusted: syn parse, rustc MIR call graph. How each caller uses the result (hover text) is not decided.",
     "DESIGN.md section 4 C15")
@@ -92,17 +92,17 @@ chk("C04", "MIR assert inventory (no overflow/div assert on signed ints reachabl
     "Trusted: rustc MIR (overflow checks on), syn parse, Rust's wrapping_*/checked_* semantics.",
     "DESIGN.md section 4 C04")
 
-chk("C06", "abstract simulation of MIR under fixed enum discriminants: owes-table of eval_expr (blocks popped per (variant, state)) vs blocks popped by eval_break/eval_continue per discarded or re-scheduled entry (conservation), stop-only-at-running-loop",
+chk("C06", "abstract simulation of MIR under fixed enum discriminants: owes-table of eval_expr (blocks popped per (variant, state)) vs blocks popped by eval_break/eval_continue per discarded or re-scheduled entry (conservation), stop-only-at-running-loop; CONSUME-NEXT-BLOCK (eval_block moves bindings_next_block out)",
     "The push/pop discipline of binding blocks is decided for every (Expression_ variant, state) entry and every path of the unwinding code: what an entry's own arm would pop is exactly what break/continue pop when they remove it, they stop only at the loop whose body runs, and return drops the whole frame. That discipline is what makes a block's variables invisible after any exit.",
     "Trusted: rustc MIR; the abstraction that an entry in a state that pops a block exists only while that block is pushed. Name-resolution results are not computed.",
     "DESIGN.md section 4 C06")
 
-chk("C07", "symbolic sequence analysis over the syntax tree: values popped vs values handed to RestoreValues at each of ~150 error sites (reverse-equality), callee-pop summaries, inherited context at the two dispatchers; MIR: effect-before-error on eval_expr's fallible calls, Err-edge restore in eval::eval",
+chk("C07", "symbolic sequence analysis over the syntax tree: values popped vs values handed to RestoreValues at each of ~150 error sites (reverse-equality), callee-pop summaries, inherited context at the two dispatchers; MIR: effect-before-error on eval_expr's fallible calls, Err-edge restore in eval::eval; EXIT-RESTORE (return value pushed back before every frame-exit error, through helpers); RESUME-ENTRY (loop-bypassing return only at top level)",
     "For every error path of every step function the values pushed back are exactly the values popped, in reverse order, and no continuation stays scheduled when a helper fails; so re-running the failed step sees the same machine state. Decided per site for all programs; message text and side effects of re-running are not decided.",
     "Trusted: syn parse, rustc MIR; the walker's idiom set (vec! literals, pushes, for-loops over args, mirrored pop vectors, optional pop groups) - a construction outside it is reported, not assumed.",
     "DESIGN.md section 4 C07")
 
-chk("C12", "table inverse check (escape/unescape match arms) + exact regular-language decision: product of the printed-literal DFA with STRING_RE's leftmost-first DFA (regex-automata), DFA inclusion for float/int text",
+chk("C12", "table inverse check (escape/unescape match arms) + exact regular-language decision: product of the printed-literal DFA with STRING_RE's leftmost-first DFA (regex-automata), DFA inclusion for float/int text; NUMBER-PARSE (literal values come from std's parse on the `_`-stripped token text; numbers printed with std Display)",
     "Lexical clauses decided exactly for all strings: every literal escape_string_literal can print is read back by the lexer as exactly one token ending at its closing quote, whatever follows it, and unescape inverts escape row by row; printed finite floats and ints are whole number tokens. Not sampled; a failing tree yields a witness literal.",
     "Trusted: regex-automata's DFA (same engine family as the regex crate), syn parse, Rust's float Display shape. Compound values and parse->equal-value are not decided.",
     "DESIGN.md section 4 C12")
@@ -112,22 +112,22 @@ chk("C23", "regex newline-reachability by DFA search selects multi-line token ki
     "Trusted: syn parse, regex-automata DFA. Positions computed by checker fixes and the LSP layer are out of scope.",
     "DESIGN.md section 4 C23")
 
-chk("C01", "MIR panic-site inventory over the front end's reachable functions with dominance/dataflow discharge rules and a reviewed residue table whose guards are re-checked; parser progress-assertion idiom rule; pop/unpop pairing typestate",
+chk("C01", "MIR panic-site inventory over the front end's reachable functions with dominance/dataflow discharge rules and a reviewed residue table whose guards are re-checked; parser progress-assertion idiom rule; pop/unpop pairing typestate; LOOP-GUARD (token loops that can reach parse_symbol leave on no progress), D-PROGRESS, KEYWORD-GUARD; guard fingerprints and guard-call census on reviewed rows; thorough: NATIVE-LOOPS and RECURSION inventories",
     "Every panic-capable MIR operation (Assert terminators; unwrap/expect/panic!/unreachable!/assert!; indexing, slicing, RefCell borrows and the panicking-API table) in the functions reachable from the lexer, parser, checker and formatter entry points is enumerated; each is discharged by a small static proof (dominating length/arity/peek test, unsigned-add assumption, regex literal compiles, guard live ranges for RefCell) or by a reviewed row naming the guard it relies on; a new or unguarded site is reported with a call path. Decides the no-panic reading of C01 for all inputs; hangs and stack depth are only covered where listed.",
     "Trusted: rustc MIR and callee resolution (class-hierarchy fallback for unresolved trait calls); the panicking-API table stands in for dependency code; reviewed residue rows are human arguments (150 rows, each with its reason, guards re-checked). Known findings: the parser's end-of-file handling in parse_symbol (three progress assertions, unbounded recursion/loops).",
     "DESIGN.md sections 3 and 4 C01")
 
-chk("C02", "MIR panic-site inventory over everything reachable from eval::eval (D-ARITY for built-in argument indexing, D-FRAME who-may-shrink, D-BORROW guard live ranges + transitive borrow summaries, D-DISPATCH, D-SLICEORDER); who-may-write rule for the value/expression stacks",
+chk("C02", "MIR panic-site inventory over everything reachable from eval::eval (D-ARITY for built-in argument indexing, D-FRAME who-may-shrink, D-BORROW guard live ranges + transitive borrow summaries, D-DISPATCH, D-SLICEORDER); who-may-write rule for the value/expression stacks; BREAK-VALUE; WHO-CALLS-EVAL / TOPLEVEL-REPLACE; guard fingerprints on reviewed rows; thorough: NATIVE-LOOPS and RECURSION",
     "As C01, over the 590 functions the evaluator can reach: decides for all programs that no reachable Rust panic site is left unargued. The value-stack pops are a reviewed class backed by the who-may-write rule VALSTACK-WRITERS.",
     "Trusted: as C01. D-VALSTACK assumes each scheduled sub-expression pushes exactly one value (not proved; the known finding `1 + continue` inside a for body is the recorded counterexample class). Drop-glue recursion on deeply nested values is outside MIR call facts.",
     "DESIGN.md sections 3 and 4 C02")
 
-chk("C09", "MIR panic-site inventory over the JSON worker thread's reachable code; interval path-count dataflow (exactly one print_as_json per request path, callee summaries); worker-loop exit shape; SKIP-BALANCE and VALSTACK-WRITERS who-may-write rules",
+chk("C09", "MIR panic-site inventory over the JSON worker thread's reachable code; interval path-count dataflow (exactly one print_as_json per request path, callee summaries); worker-loop exit shape; SKIP-BALANCE and VALSTACK-WRITERS who-may-write rules; FRAMING-EXACT (payload read with read_exact); WHO-CALLS-EVAL / TOPLEVEL-REPLACE; C08's restore rules",
     "A panic on the worker thread loses every later request, so the inventory of C01/C02 is taken from handle_request_in_worker / eval_worker / handle_request; RESPONSE-ONCE proves min=max=1 responses on every CFG path of the request handler (Interrupt answered by the reader thread).",
     "Trusted: as C01/C02. Content and order of responses are not decided; the stdin framing loop is out of scope.",
     "DESIGN.md section 4 C09")
 
-chk("C28", "MIR panic-site inventory over lsp::run_lsp's reachable code; per-method region path-count (exactly one response iff an id is present, none for notifications); loop-exit shape; pipeline agreement with `garden check`",
+chk("C28", "MIR panic-site inventory over lsp::run_lsp's reachable code; per-method region path-count (exactly one response iff an id is present, none for notifications); loop-exit shape; pipeline agreement with `garden check`; DOC-SYNC (stored and checked text = contentChanges.last().text)",
     "Panic-freedom of every handler the server can run is decided as in C01; ARM-SHAPE decides on handle_message's CFG that each of the 12 request methods answers exactly once when an id is present and that notifications never answer; the server loop leaves only on end of input or `exit`.",
     "Trusted: as C01; serde serialisation of the server's own response types does not fail. Range conversion correctness (C29) and equality of diagnostics beyond the pipeline shape are not decided.",
     "DESIGN.md section 4 C28")
